@@ -9,8 +9,13 @@ distance phase, then greedy overhead phase).
 The base system (`Model/Ctrl.lean`) is untouched: `SysX` pairs a base state with the extra
 state `Sch`, and `stepX` performs a base step on the base part (so every base theorem lifts:
 `reachableX_base`). The numeric values of distances/overheads and hence WHICH admissible pair a
-phase picks remain an oracle; what is modelled is which keys exist (every KeyError site of
-`_assignment_heuristic`, `update_worker2task_distance` is an `.error`) and which calls are made
+phase picks remain an oracle; what is modelled is which keys exist — the KeyError sites on the dictionaries whose key
+SETS change during a run: `worker2task_distance[worker]` (`_assignment_heuristic` phase 1, `update_worker2task_distance`
+in `plan`), `worker2task_overhead[w][t]` (phase 2), `worker2task_values.remove(task)` are an `.error` — and which calls
+are made. NOT in this model: the two lookups into the STATIC tables of the preschedule, `core.distance_matrix[a][b]`
+(`update_worker2task_distance`, both tasks in the component) and `core.value[t]` (phase 2), which are total on a
+component by C16 (`c03_heuristic_tables_total` cites `c16_ncd`/`c16_value`); `component.computable[task]`/`.pop(task)`
+are covered by `StageOk` (the tasks of a heuristic call are computable tasks of the component)
 (so that "a round with something computable and every worker idle dispatches something" can be
 stated and proved).
 -/
